@@ -114,6 +114,18 @@ impl<E: Effect, R: CommandReceiver<E>, S: EventSender<E>> Worker<E, R, S> {
         }
     }
 
+    /// Verification hook: read-only access to this worker's executor between steps.
+    #[cfg(feature = "verif")]
+    pub fn verif_executor(&self) -> &Executor<E> {
+        &self.executor
+    }
+
+    /// Verification hook: targets this worker is watching for completion (awaited set).
+    #[cfg(feature = "verif")]
+    pub fn verif_awaited(&self) -> Vec<ProcessId> {
+        self.awaited.iter().copied().collect()
+    }
+
     /// Process one iteration of the worker loop
     /// Returns true if work was done, false if idle
     pub fn step(&mut self, current_time_ms: u64) -> Result<bool, EnvironmentError> {
